@@ -21,7 +21,8 @@ MANIFEST = dict(
          "the real assembler, offered to a real chain.BlockChain, and TLC validates: accepted iff every payload takes effect at most once on the branch and inside its "
          "window, and recipient balances grow by exactly the packaged occurrences; the engine's own MineBlock is driven with a pool refilled from side-fork blocks.",
     note="Layer 1 reproduces the 10-line reload loop of BlockChain.initTxPool in the adapter (it needs a whole BlockChain); layer 2 restarts through the real "
-         "chain.NewBlockChain. Three genuine defects are carried as named deviations (Dev_TxMalleableEncoding, Dev_DupTxInBlock, Dev_MinerRepackagesChainTx). "
+         "chain.NewBlockChain. Three genuine defects were found: duplicates inside one block and the miner re-packaging a side-fork transaction are repaired in /repo "
+         "(fix: commits, known_findings.txt); signature malleability (another encoding = another tx hash) is carried as named deviation Dev_TxMalleableEncoding. "
          "Pool admission paths (SendTx / handleTxsMsg) are not driven.",
     technique="TLA+ model checking (TxGuard.tla, TxGuardChain.tla) + replay of TLC state graphs / simulated behaviours on the real guard and the real engine + "
               "TLC trace validation (TraceTxGuard.tla, TraceTxGuardChain.tla) + one recording driver (DPoVP.MineBlock)")
